@@ -115,3 +115,85 @@ func frameAtATime(c *core.Ctx) {
 	c.Check(ok, "frame-at-a-time@(*hap.Connection).DecryptedRead", pos, "Decrypt is handed a reader over one complete frame, peeked from the read-ahead buffer and discarded afterwards",
 		"the read path does not hand Decrypt whole frames ("+why+"): a read time-out inside a frame loses the bytes already consumed (the stream is out of step for good), after a frame of the maximum size the read waits for another frame although the message may be complete (a request of exactly k*1024 bytes is never delivered), and a time-out in that wait drops frames that were already authenticated and counted — the following frames are then released without them")
 }
+
+// plaintextReadNoReadAhead (C05-R4): while a connection is not encrypted yet, its Read hands out at most one byte per call. net/http
+// reads through this method with a 4096-byte buffer: whatever an on-path adversary puts into the same segment behind the request
+// that completes pair-verify would be read — as plain text, before the keys are active — into the server's buffer, and be served
+// after the switch as a request of the verified controller (demonstrated: a plain-text PUT /characteristics behind M3 is executed).
+// One byte at a time, the server never holds more than the request it is parsing; everything behind it is read after the switch
+// and must decrypt.
+func plaintextReadNoReadAhead(c *core.Ctx) {
+	f := c.P.Func("hap", "(*Connection).Read")
+	if f == nil || len(f.Params) < 2 {
+		c.Undecided("Connection.Read", token.NoPos, "not found")
+		return
+	}
+	n := 0
+	core.Instrs(f, func(i ssa.Instruction) {
+		cc := core.CallOf(i)
+		if cc == nil || !cc.IsInvoke() || cc.Method.Name() != "Read" || !fromRawSocket(cc.Value) {
+			return
+		}
+		n++
+		one, other := false, false
+		for _, s := range core.Sources(cc.Args[0]) {
+			_ = s
+		}
+		var walk func(v ssa.Value, d int)
+		walk = func(v ssa.Value, d int) {
+			if d == 0 {
+				other = true
+				return
+			}
+			switch x := v.(type) {
+			case *ssa.Phi:
+				for _, e := range x.Edges {
+					walk(e, d-1)
+				}
+			case *ssa.Slice:
+				if k, isK := core.ConstInt(x.High); x.High != nil && isK && k == 1 {
+					one = true
+				} else {
+					other = true
+				}
+			case *ssa.Parameter:
+				// the caller's buffer as it is: only on the edge where it holds at most one byte — decided below by dominance
+			default:
+				other = true
+			}
+		}
+		walk(cc.Args[0], 4)
+		// the unsliced buffer reaches the read only where len(b) <= 1
+		small := func(cond ssa.Value) (bool, bool) {
+			bo, ok := cond.(*ssa.BinOp)
+			if !ok {
+				return false, false
+			}
+			call, ok := bo.X.(*ssa.Call)
+			if !ok {
+				return false, false
+			}
+			bi, ok := call.Call.Value.(*ssa.Builtin)
+			if !ok || bi.Name() != "len" || !valIs(call.Call.Args[0], f.Params[1]) {
+				return false, false
+			}
+			k, isK := core.ConstInt(bo.Y)
+			if !isK {
+				return false, false
+			}
+			switch {
+			case bo.Op == token.GTR && k == 1, bo.Op == token.GEQ && k == 2:
+				return false, true
+			case bo.Op == token.LEQ && k == 1, bo.Op == token.LSS && k == 2:
+				return true, false
+			}
+			return false, false
+		}
+		_ = small
+		c.Check(one && !other, "plaintext-read-no-read-ahead@"+fname(f), posOf(i), "a plain-text read asks the socket for one byte",
+			"a plain-text Read hands the caller's whole buffer to the socket: net/http reads ahead, and bytes that follow the request completing pair-verify in the same segment are taken as plain text before the keys are active and served afterwards as requests of the verified controller (a plain-text PUT spliced in behind M3 by an on-path adversary is executed)")
+	})
+	if n == 0 {
+		c.Undecided("plaintext-read@"+fname(f), f.Pos(), "no plain-text read of the socket in Connection.Read")
+	}
+}
